@@ -44,7 +44,6 @@ func c17CopyOrShare(r *Run) {
 		return
 	}
 	info := binder.Pkg.TypesInfo
-	g := r.P.CFGOf(binder)
 	// X.Type where X is a compiler.Global
 	isVarType := func(e ast.Expr) bool {
 		sel, ok := ast.Unparen(e).(*ast.SelectorExpr)
@@ -89,54 +88,96 @@ func c17CopyOrShare(r *Run) {
 		return (be.Op == token.EQL && l.Truth) || (be.Op == token.NEQ && !l.Truth)
 	}
 	ncopy, nshare := 0, 0
-	ast.Inspect(binder.Decl.Body, func(n ast.Node) bool {
-		c, ok := n.(*ast.CallExpr)
-		if !ok {
-			return true
-		}
-		sel, ok := c.Fun.(*ast.SelectorExpr)
-		if !ok {
-			return true
-		}
-		f := callee(info, c)
-		if f == nil || f.Pkg() == nil || f.Pkg().Path() != "reflect" {
-			return true
-		}
-		switch {
-		case f.Name() == "Set" && len(c.Args) == 1:
-			// v.Set(val): the copy of the initialiser into a fresh cell
-			ncopy++
-			o := r.Ob(R, binder.Name()+"#copy-branch", c.Pos())
-			if g.GuardedBy(c, func(l Lit) bool { return eqLit(l, isInitType, isVarType) }) {
-				o.OK("the copy is taken only when the initialiser's type == the variable's type")
-			} else {
-				o.Bad("the copy of the initialiser into a fresh cell is not guarded by identity of its type with the variable's type: a pointer (or another assignable value) passed for an interface-typed variable is copied instead of shared")
+	// scan reads one function; in a helper that returns the cell (viaReturn) the share branch is the
+	// returned ….Elem() instead of the one stored into the result slice
+	var scan func(fn *FuncInfo, viaReturn bool)
+	scan = func(fn *FuncInfo, viaReturn bool) {
+		g := r.P.CFGOf(fn)
+		ast.Inspect(fn.Decl.Body, func(n ast.Node) bool {
+			c, ok := n.(*ast.CallExpr)
+			if !ok {
+				return true
 			}
-		case f.Name() == "Elem" && len(c.Args) == 0 && typeStr(info.TypeOf(sel.X)) == "reflect.Value":
-			// ….Elem() of the initialiser stored as the variable's cell: only when its value is assigned to the result slice
-			if rc, ok := ast.Unparen(sel.X).(*ast.CallExpr); ok {
-				if rf := callee(info, rc); rf != nil && rf.Name() == "New" {
-					return true // a fresh cell (reflect.New(T).Elem()), not the caller's storage
+			sel, ok := c.Fun.(*ast.SelectorExpr)
+			if !ok {
+				return true
+			}
+			f := callee(info, c)
+			if f == nil || f.Pkg() == nil || f.Pkg().Path() != "reflect" {
+				return true
+			}
+			switch {
+			case f.Name() == "Set" && len(c.Args) == 1:
+				// v.Set(val): the copy of the initialiser into a fresh cell
+				ncopy++
+				o := r.Ob(R, binder.Name()+"#copy-branch", c.Pos())
+				if g.GuardedBy(c, func(l Lit) bool { return eqLit(l, isInitType, isVarType) }) {
+					o.OK("the copy is taken only when the initialiser's type == the variable's type")
+				} else {
+					o.Bad("the copy of the initialiser into a fresh cell is not guarded by identity of its type with the variable's type: a pointer (or another assignable value) passed for an interface-typed variable is copied instead of shared")
+				}
+			case f.Name() == "Elem" && len(c.Args) == 0 && typeStr(info.TypeOf(sel.X)) == "reflect.Value":
+				// ….Elem() of the initialiser stored as the variable's cell: only when its value is assigned to the result slice
+				if rc, ok := ast.Unparen(sel.X).(*ast.CallExpr); ok {
+					if rf := callee(info, rc); rf != nil && rf.Name() == "New" {
+						return true // a fresh cell (reflect.New(T).Elem()), not the caller's storage
+					}
+				}
+				par := r.P.Parents(fn.File)
+				if viaReturn {
+					if _, isRet := par[ast.Node(c)].(*ast.ReturnStmt); !isRet {
+						return true
+					}
+				} else {
+					as, ok := par[ast.Node(c)].(*ast.AssignStmt)
+					if !ok {
+						return true
+					}
+					if _, isIdx := ast.Unparen(as.Lhs[0]).(*ast.IndexExpr); !isIdx {
+						return true
+					}
+				}
+				nshare++
+				o := r.Ob(R, binder.Name()+"#share-branch", c.Pos())
+				if g.GuardedBy(c, func(l Lit) bool { return eqLit(l, isElemOfInitType, isVarType) }) {
+					o.OK("the caller's storage is shared only when the pointer's element type == the variable's type")
+				} else {
+					o.Bad("sharing the caller's storage is not guarded by identity of the pointer's element type with the variable's type")
 				}
 			}
-			par := r.P.Parents(binder.File)
-			as, ok := par[ast.Node(c)].(*ast.AssignStmt)
-			if !ok {
+			return true
+		})
+	}
+	scan(binder, false)
+	if ncopy == 0 && nshare == 0 {
+		// the cell may be built by a helper of the package: `values[i] = helper(variable, value)`
+		seen := map[types.Object]bool{}
+		ast.Inspect(binder.Decl.Body, func(n ast.Node) bool {
+			as, ok := n.(*ast.AssignStmt)
+			if !ok || len(as.Lhs) != 1 || len(as.Rhs) != 1 {
 				return true
 			}
 			if _, isIdx := ast.Unparen(as.Lhs[0]).(*ast.IndexExpr); !isIdx {
 				return true
 			}
-			nshare++
-			o := r.Ob(R, binder.Name()+"#share-branch", c.Pos())
-			if g.GuardedBy(c, func(l Lit) bool { return eqLit(l, isElemOfInitType, isVarType) }) {
-				o.OK("the caller's storage is shared only when the pointer's element type == the variable's type")
-			} else {
-				o.Bad("sharing the caller's storage is not guarded by identity of the pointer's element type with the variable's type")
+			hc, ok := ast.Unparen(as.Rhs[0]).(*ast.CallExpr)
+			if !ok {
+				return true
 			}
-		}
-		return true
-	})
+			hf := callee(info, hc)
+			if hf == nil || hf.Pkg() != binder.Obj.Pkg() || seen[hf] {
+				return true
+			}
+			seen[hf] = true
+			for _, h := range r.P.Funcs("") {
+				if h.Obj == hf && !r.P.isTestFile(h.File) {
+					scan(h, true)
+					break
+				}
+			}
+			return true
+		})
+	}
 	if ncopy == 0 || nshare == 0 {
 		r.Ob(R, binder.Name()+"#shape", binder.Decl.Pos()).Unknown("expected one copy (Set into a fresh cell) and one share (Elem of the initialiser) branch, found %d and %d", ncopy, nshare)
 	}
